@@ -347,3 +347,150 @@ def auto_addr_follows_every_new_address(ctx, P, pre):
            "every addr_auto service of the loop gets the new address" if not bad else
            "a turn of the service loop can skip insert_ipaddr for an addr_auto service (status, earlier announcement ...): the service never "
            "publishes the address that appeared")
+
+
+# ------------------------------------------------------------------------------------------------
+# Dispatch skeleton: the same must-pass-through shape applied to the places every property goes through
+def every_packet_dispatched(ctx, P, pre):
+    """handle_read hands every datagram that arrived on a known interface with the family enabled to the decoder, and every
+    decoded message to handle_query (QR = 0) or handle_response (QR = 1).  The edges that may drop a datagram are listed:
+    unknown token, socket gone, recv error, unknown interface, family disabled on the interface, decode error, a message
+    that is neither query nor response."""
+    f = P.one("Zeroconf::handle_read")
+    dec = calls_to(f, "DnsIncoming::new")
+    hq = calls_to(f, "Zeroconf::handle_query")
+    hr = calls_to(f, "Zeroconf::handle_response")
+    ctx.require(len(dec) == 1 and len(hq) >= 1 and len(hr) >= 1, pre + ".anchor", f.name + "|decode + dispatch", f.loc(), "%d/%d/%d" % (len(dec), len(hq), len(hr)))
+    if len(dec) != 1 or not hq or not hr:
+        return
+    db = dec[0][0]
+    tr = tracer(P, f)
+
+    def drop_ok(atom, outcome, bb):
+        if atom[0] == "variant" and outcome == frozenset(["None"]) and any(expr_mentions_field(atom[1], fld, "Zeroconf") for fld in ("ipv4_sock", "ipv6_sock", "my_intfs")):
+            return True
+        if atom[0] == "variant" and outcome == frozenset(["Err"]) and any(x[0] == "call" and method(strip_generics(x[1])) in ("recv", "recv_from", "recvmsg") for x in walk(atom[1])):
+            return True
+        if any(x[0] == "call" and method(strip_generics(x[1])) in ("next_ifaddr_v4", "next_ifaddr_v6") for x in walk(atom)):
+            return True
+        return False
+    allowed = guard_edges(P, f, drop_ok)
+    # the event-key switch: its default arm (neither socket token) may return
+    for b in sorted(f.live_blocks()):
+        t = f.term(b)
+        if t["k"] == "switch":
+            d = tr.operand(t["d"], endpos(f, b)) if "d" in t else None
+            if d is not None and any(x == ("param", 2) for x in strip(d)):
+                for (tgt, atom, outcome) in switch_edges(P, f, b):
+                    if isinstance(outcome, tuple) and outcome and outcome[0] == "not":
+                        allowed.add((b, tgt))
+    reach = f.reachable(0, removed_blocks=[db], removed_edges=allowed)
+    early = [f.loc(r) for r in reach if f.term(r)["k"] == "return"]
+    ok1 = not early and db in f.reachable(0, removed_edges=allowed)
+    ctx.ob(pre + ".every-datagram-decoded", f.name, ok1, f.loc(db),
+           "a datagram is dropped before decoding only for a listed reason (socket / recv error / unknown interface / family disabled)" if ok1 else
+           "handle_read can return before decoding (%s) for a reason other than socket gone / recv error / unknown interface / family disabled: "
+           "such datagrams are never answered or cached" % early[:2])
+    e_ok = guard_edges(P, f, lambda atom, outcome, bb: atom[0] == "variant" and outcome == frozenset(["Ok"]) and any(x[0] == "call" and x[3] == (f.name, db) for x in walk(atom[1])))
+    skip = guard_edges(P, f, lambda atom, outcome, bb: atom[0] == "call" and name_matches(strip_generics(atom[1]), "DnsIncoming::is_response") and outcome is False)
+    bad = []
+    for (b, tgt) in sorted(e_ok):
+        reach = f.reachable(tgt, removed_blocks=[x[0] for x in hq] + [x[0] for x in hr], removed_edges=skip)
+        if any(f.term(r)["k"] == "return" for r in reach):
+            bad.append(f.loc(b))
+    ctx.ob(pre + ".every-message-dispatched", f.name, bool(e_ok) and not bad, f.loc(hq[0][0]),
+           "every decoded message goes to handle_query or handle_response (or is neither)" if (e_ok and not bad) else
+           "a decoded message can be dropped without reaching handle_query / handle_response")
+    # and the query arm really is the query arm
+    e_q = guard_edges(P, f, lambda atom, outcome, bb: atom[0] == "call" and name_matches(strip_generics(atom[1]), "DnsIncoming::is_query") and outcome is True)
+    e_r = guard_edges(P, f, lambda atom, outcome, bb: atom[0] == "call" and name_matches(strip_generics(atom[1]), "DnsIncoming::is_response") and outcome is True)
+    ok3 = all(must_pass_edges(f, b, e_q) for b, _t in hq) and all(must_pass_edges(f, b, e_r | edges_complement(P, f, e_q)) for b, _t in hr)
+    # ... and a query always gets there: nothing between is_query() == true and handle_query
+    for (b, tgt) in sorted(e_q):
+        if tgt not in [x[0] for x in hq] and any(f.term(r)["k"] == "return" for r in f.reachable(tgt, removed_blocks=[x[0] for x in hq])):
+            ok3 = False
+    ctx.ob(pre + ".dispatch-by-qr-bit", f.name, ok3, f.loc(hq[0][0]), "handle_query under is_query(), handle_response otherwise")
+
+
+def response_tail_always_runs(ctx, P, pre, want=("resolve", "addresses")):
+    """after the caching loop handle_response always (a) reports the address changes to the hostname resolvers and (b) hands
+    the updated instances to resolve_updated_instances; only an `is_empty()` test on a local collection may skip them"""
+    f = P.one("Zeroconf::handle_response")
+    calls = calls_to(f, "DnsCache::add_or_update")
+    if not calls:
+        ctx.require(False, pre + ".anchor", f.name + "|add_or_update", f.loc(), "0 calls")
+        return
+    head = lift_to_inner_loop(f, calls[0][0])
+    skip = guard_edges(P, f, lambda atom, outcome, bb: atom[0] == "call" and method(strip_generics(atom[1])) == "is_empty" and outcome is True and
+                       not any(x[0] == "field" and (x[3] or "").endswith("Zeroconf") for x in walk(atom)))
+    loops = f.loops()
+    if "resolve" in want:
+        rs = calls_to(f, "Zeroconf::resolve_updated_instances")
+        ok = len(rs) >= 1
+        if ok:
+            reach = f.reachable(head, removed_blocks=[b for b, _t in rs], removed_edges=skip)
+            ok = not any(f.term(r)["k"] == "return" for r in reach)
+        ctx.ob(pre + ".updates-always-resolved", f.name, ok, f.loc(rs[0][0]) if rs else f.loc(),
+               "every path from the caching loop to the end of handle_response calls resolve_updated_instances" if ok else
+               "handle_response can end after the caching loop without resolve_updated_instances: records that completed an instance are cached "
+               "but no ServiceResolved follows")
+    if "addresses" in want:
+        hs = [b for b, t in f.calls() if name_matches(cname(t), "service_daemon::call_hostname_resolution_listener")]
+        ok = len(hs) >= 1
+        if ok:
+            hh = [h for h, body in loops.items() if hs[0] in body and head not in body]
+            ok = bool(hh)
+            if ok:
+                outer = max(hh, key=lambda h: len(loops[h]))
+                reach = f.reachable(head, removed_blocks=[outer], removed_edges=skip)
+                ok = not any(f.term(r)["k"] == "return" for r in reach)
+        ctx.ob(pre + ".address-changes-always-reported", f.name, ok, f.loc(hs[0]) if hs else f.loc(),
+               "every path from the caching loop to the end of handle_response walks the address changes for the hostname resolvers" if ok else
+               "handle_response can end after the caching loop without the walk that reports new addresses to the hostname resolvers")
+
+
+def collected_answers_are_sent(ctx, P, pre):
+    """what the question loop of handle_query collected is sent: after the loop the only way around send_dns_outgoing is
+    `answers_count() == 0`"""
+    f = P.one("Zeroconf::handle_query")
+    sites = calls_to(f, "DnsOutgoing::add_answer_with_additionals")
+    snd = calls_to(f, "service_daemon::send_dns_outgoing")
+    ctx.require(len(sites) >= 1 and len(snd) >= 1, pre + ".anchor", f.name + "|collect + send", f.loc(), "%d/%d" % (len(sites), len(snd)))
+    if not sites or not snd:
+        return
+    loops = f.loops()
+    heads = [h for h, body in loops.items() if sites[0][0] in body]
+    head = max(heads, key=lambda h: len(loops[h]))
+
+    def empty(atom, outcome, bb):
+        if not any(x[0] == "call" and name_matches(strip_generics(x[1]), "DnsOutgoing::answers_count") for x in walk(atom)):
+            return False
+        if atom[0] == "binop" and atom[1] == "Gt" and const_value(atom[3]) == 0 and outcome is False:
+            return True
+        if atom[0] == "binop" and atom[1] == "Eq" and const_value(atom[3]) == 0 and outcome is True:
+            return True
+        return False
+    skip = guard_edges(P, f, empty)
+    # leave the loop (successors of the head outside its body), then look for a return around the send
+    outs = sorted({s_ for b in loops[head] for s_ in f.succs(b) if s_ not in loops[head]})
+    bad = []
+    for o in outs:
+        reach = f.reachable(o, removed_blocks=[b for b, _t in snd], removed_edges=skip)
+        if any(f.term(r)["k"] == "return" for r in reach):
+            bad.append(f.loc(o))
+    ctx.ob(pre + ".collected-answers-are-sent", f.name, bool(outs) and bool(skip) and not bad, f.loc(snd[0][0]),
+           "after the question loop only answers_count() == 0 goes around send_dns_outgoing" if (outs and skip and not bad) else
+           "after the question loop handle_query can return without sending what it collected, for a reason other than an empty answer section")
+
+
+def probes_driven_every_iteration(ctx, P, pre):
+    """probing is time-driven: every turn of the run loop calls probing_handler (which sends the probes that are due, moves
+    finished probes to active and announces)"""
+    run = P.one("Zeroconf::run")
+    loops = run.loops()
+    main = max(loops, key=lambda h: len(loops[h]))
+    cs = calls_to(run, "Zeroconf::probing_handler")
+    ok = len(cs) >= 1 and loop_every_iteration_passes(run, main, loops[main], [b for b, _t in cs])
+    ctx.ob(pre + ".probes-driven-every-iteration", run.name, ok, run.loc(cs[0][0]) if cs else run.loc(),
+           "every iteration of the run loop calls probing_handler" if ok else
+           "an iteration of the run loop can skip probing_handler: probes that are due wait for the next wake-up")
